@@ -33,7 +33,7 @@ CHECKS.update({
    design_ref="DESIGN.md §3 C06"),
  "C14": dict(
    category="exploration",
-   text="Part A: the real DuplexPipe::exchange under the paused clock with activity patterns placed relative to T (within T, around and exactly at the deadline, bursts/long silences, back-pressure stalls of 0.5T..3T, EOF/silent endings), T in {1,2,5,8} s + 370 us; oracle R1: a TimedOut close needs >= T without data transfer, R2: never more than 2T without any event while still open, endpoints released after the close; 400k (quick) / 20M (thorough) patterns plus a known-idle calibration case. Parts B/C (establishment timeout through the real Tunnel, TLS handshake timeout on loopback) are reported in coverage.parts.",
+   text="Part A: the real DuplexPipe::exchange under the paused clock with activity patterns placed relative to T (within T, around and exactly at the deadline, bursts/long silences, back-pressure stalls of 0.5T..3T, EOF/silent endings), T in {1,2,5,8} s + 370 us; oracle R1: a TimedOut close needs >= T without data transfer, R2: never more than 2T without any event while still open, endpoints released after the close; 400k (quick) / 20M (thorough) patterns plus a known-idle calibration case. Part B: the real Tunnel over H1/H2 with a scripted connector completing after a chosen virtual delay (0..5T, seeded, and never) for T_est in {3,7,30} s: 200 if it completes before T_est, otherwise 502/302 at T_est (not earlier, not more than 10% later) and the connect future released. Part C: real time on loopback with T_hs = 1.5 s: stalled handshakes (nothing, partial record, half hello, full hello then silence) dropped within [T/2, 2T + 2.5 s], a ClientHello sent at T/4 still answered.",
    note="Trusted: tokio's paused clock as a model of time order (T carries a 370 us fraction so timer ticks land after the deadline as in real time); gaps in (T, 2T] are EITHER.",
    technique="runtime monitoring: virtual-clock trace oracle over the real pipe (bounded-liveness restated as close-by-2T)",
    design_ref="DESIGN.md §3 C14"),
@@ -42,7 +42,7 @@ CHECKS.update({
 CHECKS.update({
  "C11": dict(
    category="exploration",
-   text="L0 through the door on the real code: rfc1071_checksum and serialised echo images against an RFC 1071 reference on seeded byte strings of every length 0..1500 and on echo images whose last data word is solved so that the folded sum carries a second time (the failing class is hit by construction); the real 7.3 decoder under whole / byte-at-a-time / every 1-cut / every 2-cut of streams of 1-3 records; the real 7.4 encoder + responded_echo_request on built packets (echo replies, ICMPv4 errors quoting the request behind 0-40 option bytes, ICMPv6 errors, extension-header chains, truncated and foreign quotes). L2 (raw ICMP on lo through the real IcmpForwarder) is reported in coverage.l2.",
+   text="L0 through the door on the real code: rfc1071_checksum and serialised echo images against an RFC 1071 reference on seeded byte strings of every length 0..1500 and on echo images whose last data word is solved so that the folded sum carries a second time (the failing class is hit by construction); the real 7.3 decoder under whole / byte-at-a-time / every 1-cut / every 2-cut of streams of 1-3 records; the real 7.4 encoder + responded_echo_request on built packets (echo replies, ICMPv4 errors quoting the request behind 0-40 option bytes, ICMPv6 errors, extension-header chains, truncated and foreign quotes). L2: the real Core::listen with icmp.interface_name = lo, three HTTP/2 clients each driving an _icmp stream with 6-40 echo requests (records sometimes split across DATA frames) to 127.0.0.1 / ::1; a harness raw socket sniffs every echo the endpoint emits (exactly one per request, requested id/seq/TTL/size, checksum verifies) and injects forged replies (foreign id, foreign seq); each client must be told exactly about its own requests in 7.4 format with the responder's address; the waiter/deadline tables must be empty after the request timeout.",
    note="Trusted: the reference checksum/codec in harness/src/props/c11.rs. ICMPv6 checksums are filled in by the kernel, so only ICMPv4 images must verify as serialised. Duplicate genuine replies inside the timeout window are EITHER.",
    technique="runtime monitoring: differential oracle on real checksum/codec/quote-matching with constructed double-carry inputs and exhaustive small segmentations",
    design_ref="DESIGN.md §3 C11"),
